@@ -98,6 +98,8 @@ def check_1d(case, ctx: Ctx):
                 interesting = True
         return i
 
+    nokeep_initial = (repr(h.missed), repr(h.to_dict()["missed"])) if not keep else None
+
     def compare(step):
         for i in range(n):
             require(F(h.frequencies[i]) == freq[i], "frequency", lambda: f"after {step}: bin {i}: {h.frequencies[i]!r} want {float(freq[i])}")
@@ -105,7 +107,9 @@ def check_1d(case, ctx: Ctx):
         u, o = float(h.underflow), float(h.overflow)
         if not keep:
             require(math.isnan(u) and math.isnan(o), "keep_missed_false_reports_numbers", f"after {step}: {u},{o}")
-            # nothing may change behind the scenes either: switch it on and look
+            # nothing may change behind the scenes either: the total missed count and the serialised counters stay as they were
+            now = (repr(h.missed), repr(h.to_dict()["missed"]))
+            require(now == nokeep_initial, "keep_missed_false_but_counters_changed", f"after {step}: missed / to_dict()['missed'] {nokeep_initial} -> {now}")
             return
         if gapped:
             require(math.isnan(u) or F(u) == under, "underflow", f"after {step}: {u} want {float(under)} or nan")
